@@ -8,6 +8,11 @@ set_option linter.unusedSectionVars false
 namespace H2V.Lemmas.ConnFidP
 open H2V H2V.Model H2V.Model.Conn H2V.Lemmas.ConnWakeP
 
+/-- an event may be taken off the receive queue of any entry (`poll_pushed`: the promised stream's) -/
+def RpopAll (P : Perm) : Prop := ∀ k, P.rpop k
+theorem rpop_of_all {P : Perm} (k : Nat) (h : RpopAll P) : P.rpop k := h k
+grind_pattern rpop_of_all => P.rpop k
+
 section
 variable {P : Perm} {s0 s : Streams} (hg : P.gone)
 include hg
@@ -38,6 +43,8 @@ include hg
   unfold Streams.ignoreData; fid_grind
 @[grind ←] theorem recvOpen_acc (k : Nat) (b : Bool) (h : Tr P s0 s) : Tr P s0 (s.recvOpen k b).1 := by
   unfold Streams.recvOpen; fid_grind
+@[grind ←] theorem notifyPushIfRecvEnded_acc (k : Nat) (h : Tr P s0 s) : Tr P s0 (s.notifyPushIfRecvEnded k) := by
+  unfold Streams.notifyPushIfRecvEnded; fid_grind
 @[grind ←] theorem recvRecvHeaders_acc (k : Nat) (hd : HeadersIn) (hA : RpushAny P k) (h : Tr P s0 s) :
     Tr P s0 (s.recvRecvHeaders k hd).1 := by
   unfold Streams.recvRecvHeaders; fid_fold; fid_grind
@@ -116,6 +123,9 @@ include hg
 @[grind ←] theorem recvPollInformational_acc (k : Nat) (t : String) (hp : P.rpop k) (h : Tr P s0 s) :
     Tr P s0 (s.recvPollInformational k t).1 := by
   unfold Streams.recvPollInformational; fid_fold; fid_grind
+@[grind ←] theorem recvPollPushed_acc (k : Nat) (t : String) (hp : RpopAll P) (h : Tr P s0 s) :
+    Tr P s0 (s.recvPollPushed k t).1 := by
+  unfold Streams.recvPollPushed; fid_fold; fid_grind
 @[grind ←] theorem pollCapacity_acc (k : Nat) (t : String) (h : Tr P s0 s) : Tr P s0 (s.pollCapacity k t).1 := by
   unfold Streams.pollCapacity; fid_grind
 @[grind ←] theorem pollReset_acc (k : Nat) (m : PollReset) (t : String) (h : Tr P s0 s) : Tr P s0 (s.pollReset k m t).1 := by
